@@ -1129,6 +1129,17 @@ def own_iter_sites(db, fn, fl):
                     if o:
                         leaves |= o[1] | o[2]
                 else:
+                    # `while let Some(x) = v.first()` / `.pop()` / `.split_first()`: runs while a container has
+                    # elements -- data-driven like `while !v.is_empty()`
+                    ds = defs.get(pl['l'], []) if not pl['p'] else []
+                    acc = None
+                    if len(ds) == 1 and ds[0][1] == 'assign' and ds[0][2].get('k') == 'discr':
+                        src = ds[0][2]['place']
+                        d2 = defs.get(src['l'], [])
+                        if len(d2) == 1 and d2[0][1] == 'call':
+                            acc = d2[0][2]['f'].get('name')
+                    if acc in ('first', 'last', 'pop', 'pop_front', 'pop_back', 'split_first', 'split_last', 'peek', 'first_mut', 'front', 'back'):
+                        continue
                     leaves |= fl.operand_leaves(t['op'])
             site('loop', leaves, header, line, 'cond' if leaves else 'data')
     for bi, t in fn.calls():
@@ -1271,6 +1282,8 @@ def _reject_kind(fn, dead_targets):
 
 _EFF_CACHE = {}
 EFF_MAX_DEPTH = 12
+# adaptors whose result is the first rejection of the closure they apply to every element
+VERDICT_ADAPTORS = {'try_for_each', 'try_fold', 'try_rfold'}
 
 
 def effective_guards(db, path, binding=None, depth=0, stack=(), opaque=None, covers='all', sinks=False):
@@ -1296,6 +1309,42 @@ def effective_guards(db, path, binding=None, depth=0, stack=(), opaque=None, cov
         for bi, t in fn.calls():
             targets = db.resolve(t['f'], binding)
             targets = [p for p in targets if db.fns[p].has_mir and not cfgmod.returns_bool(db.fns[p])]
+            if not targets and t['f'].get('name') in VERDICT_ADAPTORS and not any(p in db.fns for p in db.resolve(t['f'], binding)):
+                # iter.try_for_each(|x| ..) / try_fold(init, |acc, x| ..): the closure runs for every element until it
+                # rejects, and its rejection is the adaptor's result -- lift the closure's guards (once per iteration)
+                propagates = True
+                if (cfgmod.ty_is_result(t['dest_ty']) or cfgmod.ty_is_option(t['dest_ty'])) and not t['dest']['p']:
+                    uses, _ = cfgmod.result_uses(fn, t['dest']['l'], ra)
+                    kinds = {u.kind for u in uses}
+                    propagates = bool(uses) and not (kinds & {'swallowed', 'escaped'})
+                cov = _covers(fn, bi, ra)
+                args = t.get('args', [])
+                argl = [fl.operand_leaves(a) for a in args]
+                for ai, lv in enumerate(argl):
+                    for lf in lv:
+                        if not lf.startswith('closure:'):
+                            continue
+                        cp = lf[len('closure:'):]
+                        if cp not in db.fns or not db.fns[cp].has_mir or cp in stack or cp == path:
+                            continue
+                        cfn = db.fns[cp]
+                        elems = {fl.ext(x, '[*]') for x in argl[0] if not x.startswith('closure:')}
+                        env = {x for x in lv if not x.startswith('closure:')}
+                        if t['f'].get('name') in ('try_fold', 'try_rfold') and len(argl) == 3:
+                            actual = [env, set(argl[1]) | {x for x in fl.leaves(t['dest']['l'])}, elems]
+                        else:
+                            actual = [env] + [elems for _ in range(cfn.arg_count - 1)]
+                        for g in effective_guards(db, cp, binding, depth + 1, stack + (path,), opaque, 'all', sinks):
+                            if g.reject != 'panic' and not propagates:
+                                continue
+                            g2 = Guard(g.rel, fl._subst(g.lhs, actual, bi, env_arg=True), fl._subst(g.rhs, actual, bi, env_arg=True),
+                                       g.fn, g.bb, g.line, g.reject, _combine(_combine(cov, 'iteration'), g.covers))
+                            g2.kind = getattr(g, 'kind', None)
+                            g2.root = getattr(g, 'root', None)
+                            g2.via = [f'{path}@{t["line"]}'] + g.via
+                            g2.top_bb = bi
+                            base.append(g2)
+                continue
             if not targets:
                 continue
             propagates = True
